@@ -185,12 +185,10 @@ func cmdRun(args []string) int {
 		defer os.RemoveAll(tmpSamples)
 		for i, r := range results {
 			pk := hs[i].PkgKey
-			if hs[i].Threads {
-				continue // schedules are replayed by the thread harness's own native stress mode (see DESIGN)
-			}
-			if r.NoNative {
-				// environment outcomes of this harness are uninterpreted (no native realisation): a counterexample is
-				// confirmed by re-executing the harness in the engine with the model's concrete values
+			if r.NoNative || hs[i].Threads {
+				// environment outcomes of this harness are uninterpreted (no native realisation), or it is a thread harness whose
+				// counterexample is one explicit schedule (native goroutine scheduling cannot be steered): a counterexample is
+				// confirmed by re-executing the harness in the engine with the model's concrete values and decisions
 				nv := 0
 				for _, v := range r.Violations {
 					if v.Known != "" || nv >= 3 {
@@ -406,14 +404,33 @@ func cmdReplay(args []string) int {
 		return 2
 	}
 	pk := ""
+	var hf *eng.HarnessFn
 	for _, h := range l.Harnesses {
 		if h.Name == rf.Harness {
 			pk = h.PkgKey
+			hf = h
 		}
 	}
 	if pk == "" {
 		fmt.Println("unknown harness", rf.Harness)
 		return 2
+	}
+	engineReplay := func() int {
+		// deterministic re-execution in the engine with the recorded values (and scheduling decisions)
+		cfg := eng.RunConfig{Tier: rf.Tier, TimeoutMs: 120000, Workers: 2, Fixed: rf.Values}
+		r := eng.RunHarness(l, hf, cfg)
+		for _, v := range r.Violations {
+			fmt.Printf("engine re-execution: %s failed: %q at %s\n", v.Kind, v.Label, v.Pos)
+		}
+		if len(r.Violations) > 0 {
+			fmt.Printf("VIOLATION property=%s replay=%s\n", rf.Property, args[0])
+			return 1
+		}
+		fmt.Println("engine re-execution:", r.Status, r.Reason)
+		return 0
+	}
+	if hf.Threads {
+		return engineReplay()
 	}
 	abs, _ := filepath.Abs(args[0])
 	outs, err := eng.NativeReplay(l, pk, []string{abs}, 10*time.Minute)
@@ -431,7 +448,8 @@ func cmdReplay(args []string) int {
 		fmt.Printf("VIOLATION property=%s replay=%s\n", rf.Property, abs)
 		return 1
 	}
-	return 0
+	// harnesses whose environment outcomes are uninterpreted have no native realisation: re-execute in the engine
+	return engineReplay()
 }
 
 func cmdSelftest(args []string) int {
